@@ -173,7 +173,8 @@ def _integrate_over(expr: ast.AST, generators: Sequence[ast.comprehension]) -> a
             if step == 1:
                 upper -= 1
             else:
-                n_steps = math.floor((upper - lower) / step)
+                # The last value of the range is below its end, also when the step divides the span
+                n_steps = math.ceil((upper - lower) / step) - 1
                 lower = lower / step
                 upper = lower + n_steps
                 sym_expr = sym_expr.subs(integrand, step * integrand)
